@@ -297,6 +297,50 @@ let h_spec_csd args =
       Printf.sprintf "%d %d" (int_of_n (F.spec_csd_speed b0 b1)) (int_of_n (F.spec_csd_distance_raw b1 b2))
   | _ -> "ERR args"
 
+(* ---- abstract syntax of streams: D:local:arch:gmn:n.s.t,...:devflag:n.s.i,...  M:local:hex:hex  Z:local:off:hex:hex *)
+let parse_triples s =
+  if s = "-" then []
+  else
+    List.map
+      (fun t -> match String.split_on_char '.' t with [ a; b; c ] -> (int_of_string a, int_of_string b, int_of_string c) | _ -> failwith "triple")
+      (String.split_on_char ',' s)
+
+let parse_record (s : string) : F.record =
+  match String.split_on_char ':' s with
+  | [ "D"; l; arch; gmn; fds; devflag; devs ] ->
+      F.RDef
+        ( n_of_int (int_of_string l),
+          arch = "1",
+          n_of_int (int_of_string gmn),
+          List.map (fun (a, b, c) -> { F.sf_num = n_of_int a; F.sf_size = n_of_int b; F.sf_btype = n_of_int c }) (parse_triples fds),
+          devflag = "1",
+          List.map (fun (a, b, c) -> ((n_of_int a, n_of_int b), n_of_int c)) (parse_triples devs) )
+  | [ "M"; l; pay; dev ] -> F.RData (n_of_int (int_of_string l), bytes_of_hex pay, bytes_of_hex dev)
+  | [ "Z"; l; off; pay; dev ] -> F.RComp (n_of_int (int_of_string l), n_of_int (int_of_string off), bytes_of_hex pay, bytes_of_hex dev)
+  | _ -> failwith ("bad record " ^ s)
+
+(* spec_denote <record> ... -> "none" | "ref=<r|-> um=(..) uf=(..) msgs=<m>&<m>..." *)
+let h_spec_denote args =
+  let rs = List.map parse_record (List.filter (fun x -> x <> "-") args) in
+  match F.denote rs with
+  | None -> "none"
+  | Some st ->
+      let b = Buffer.create 1024 in
+      buf_add b "ref=";
+      (match st.F.ss_ref with None -> buf_add b "-" | Some r -> buf_add b (string_of_int (int_of_n r)));
+      buf_add b " um=(";
+      List.iteri (fun i (m, c) -> if i > 0 then buf_add b ","; buf_add b (Printf.sprintf "%d:%d" (int_of_n m) (int_of_n c))) (F.sorted_unkm st);
+      buf_add b ") uf=(";
+      List.iteri
+        (fun i ((m, f), c) -> if i > 0 then buf_add b ","; buf_add b (Printf.sprintf "%d.%d:%d" (int_of_n m) (int_of_n f) (int_of_n c)))
+        (F.sorted_unkf st);
+      buf_add b ") msgs=";
+      List.iteri (fun i m -> if i > 0 then buf_add b "&"; show_msg b m) st.F.ss_msgs;
+      Buffer.contents b
+
+(* spec_ser <record> ... -> hex of the record bytes *)
+let h_spec_ser args = hex_of_bytes (F.ser_records (List.map parse_record (List.filter (fun x -> x <> "-") args)))
+
 (* profile_wf_report -> "ok" or "msg.field.code msg.field.code ..." *)
 let h_profile_wf _ =
   if F.profile_wf then "ok"
@@ -322,6 +366,8 @@ let h_ft_valid args =
   match args with [ ft ] -> if F.ft_valid (n_of_int (int_of_string ft)) then "1" else "0" | _ -> "ERR args"
 
 let install (register : string -> (string list -> string) -> unit) =
+  register "spec_denote" h_spec_denote;
+  register "spec_ser" h_spec_ser;
   register "expand" h_expand;
   register "spec_acc" h_spec_acc;
   register "spec_csd" h_spec_csd;
